@@ -437,6 +437,91 @@ def _has_uf_or_int(fs):
     return False
 
 
+class _NoRelax(Exception):
+    pass
+
+
+def relax_to_reals(fs):
+    """Over-approximation of a conjunction in pure real arithmetic: every application of an uninterpreted function and
+    every integer constant becomes a fresh real constant (integrality and function congruence are dropped).  If the
+    relaxation is unsat so is the original; a sat answer means nothing."""
+    memo = {}
+    fresh = {}
+
+    def var(key, e):
+        if key not in fresh:
+            fresh[key] = z3.Real('rx!%d' % len(fresh))
+        return fresh[key]
+
+    def go(e):
+        i = e.get_id()
+        if i in memo:
+            return memo[i]
+        k = e.decl().kind()
+        if z3.is_int_value(e):
+            r = z3.RealVal(e.as_long())
+        elif z3.is_rational_value(e) or z3.is_true(e) or z3.is_false(e):
+            r = e
+        elif k == z3.Z3_OP_UNINTERPRETED:
+            if z3.is_bool(e) and e.num_args() == 0:
+                r = e
+            elif e.num_args() == 0 and e.sort().kind() == z3.Z3_REAL_SORT:
+                r = e
+            else:
+                r = var(i, e)           # UF application or integer constant
+        elif k in (z3.Z3_OP_TO_REAL,):
+            r = go(e.arg(0))
+        elif k in (z3.Z3_OP_IDIV, z3.Z3_OP_MOD, z3.Z3_OP_REM, z3.Z3_OP_TO_INT, z3.Z3_OP_IS_INT):
+            raise _NoRelax()
+        else:
+            ch = [go(c) for c in e.children()]
+            if k == z3.Z3_OP_ADD:
+                r = ch[0]
+                for c in ch[1:]:
+                    r = r + c
+            elif k == z3.Z3_OP_SUB:
+                r = ch[0]
+                for c in ch[1:]:
+                    r = r - c
+            elif k == z3.Z3_OP_MUL:
+                r = ch[0]
+                for c in ch[1:]:
+                    r = r * c
+            elif k == z3.Z3_OP_UMINUS:
+                r = -ch[0]
+            elif k == z3.Z3_OP_DIV:
+                r = ch[0] / ch[1]
+            elif k == z3.Z3_OP_LE:
+                r = ch[0] <= ch[1]
+            elif k == z3.Z3_OP_LT:
+                r = ch[0] < ch[1]
+            elif k == z3.Z3_OP_GE:
+                r = ch[0] >= ch[1]
+            elif k == z3.Z3_OP_GT:
+                r = ch[0] > ch[1]
+            elif k == z3.Z3_OP_EQ:
+                r = ch[0] == ch[1]
+            elif k == z3.Z3_OP_DISTINCT:
+                r = z3.Distinct(*ch)
+            elif k == z3.Z3_OP_AND:
+                r = z3.And(*ch)
+            elif k == z3.Z3_OP_OR:
+                r = z3.Or(*ch)
+            elif k == z3.Z3_OP_NOT:
+                r = z3.Not(ch[0])
+            elif k == z3.Z3_OP_IMPLIES:
+                r = z3.Implies(ch[0], ch[1])
+            elif k == z3.Z3_OP_ITE:
+                r = z3.If(ch[0], ch[1], ch[2])
+            elif k == z3.Z3_OP_XOR:
+                r = z3.Xor(ch[0], ch[1])
+            else:
+                raise _NoRelax()
+        memo[i] = r
+        return r
+    return [go(f) for f in fs]
+
+
 def robust_check(assertions, total_ms, stats=None):
     """Decide sat/unsat of a conjunction with a ladder of strategies.  z3's nonlinear reasoning is sensitive to
     heuristics (the same goal can take 0.1 s or minutes), so a short default attempt is followed by the nlsat
@@ -449,11 +534,20 @@ def robust_check(assertions, total_ms, stats=None):
         return max(0.0, t_end - time.time()) * 1000.0
     plan = [('default', 4000)]
     pure = not _has_uf_or_int(assertions)
+    relaxed = None
     if pure:
         plan.append(('nlsat', 15000))
+    else:
+        try:
+            relaxed = relax_to_reals(assertions)
+            plan.append(('relaxed-nlsat', 12000))
+        except _NoRelax:
+            relaxed = None
     plan += [('seed1', 8000), ('freshctx', 15000), ('seed2', 15000)]
     if pure:
         plan.append(('nlsat', 60000))
+    elif relaxed is not None:
+        plan.append(('relaxed-nlsat', 40000))
     plan.append(('default', 10 ** 9))
     for name, ms in plan:
         ms = min(ms, left())
@@ -463,6 +557,9 @@ def robust_check(assertions, total_ms, stats=None):
             if name == 'nlsat':
                 s = z3.Then('simplify', 'purify-arith', 'qfnra-nlsat').solver()
                 s.add(*assertions)
+            elif name == 'relaxed-nlsat':
+                s = z3.Then('simplify', 'purify-arith', 'qfnra-nlsat').solver()
+                s.add(*relaxed)
             elif name == 'freshctx':
                 # same goal, re-parsed from its SMT-LIB text: different term ordering, different heuristic choices
                 s0 = z3.Solver()
@@ -480,6 +577,8 @@ def robust_check(assertions, total_ms, stats=None):
             r = z3.unknown
         if stats is not None:
             stats[name] = stats.get(name, 0) + 1
+        if name == 'relaxed-nlsat' and r != z3.unsat:
+            continue                    # only `unsat` of the over-approximation carries over
         if r != z3.unknown:
             return r, name
     return z3.unknown, 'none'
